@@ -215,6 +215,12 @@ func runL3(args []string) {
 			outs = append(outs, gOutput(g))
 		}
 		q := "SELECT " + strings.Join(outs, ", ") + " FROM t"
+		// sometimes the statement also has an input of a type that no output refers to: a
+		// destination of that type is as unused as one of an unknown type
+		withFilter := cr.Chance(1, 4)
+		if withFilter {
+			q += " WHERE z = $InFilter.z"
+		}
 		uses, order, pobs, ok := usesOf(q)
 		if !ok {
 			dist["skipped:parse-error"]++
@@ -228,6 +234,11 @@ func runL3(args []string) {
 				types = append(types, e.Type)
 			}
 		}
+		var qargs []any
+		if withFilter {
+			samples = append(samples, InFilter{})
+			qargs = []any{InFilter{Z: 3}}
+		}
 		stmt, err := sqlair.Prepare(q, samples...)
 		if err != nil {
 			dist["skipped:prepare-error"]++
@@ -238,7 +249,11 @@ func runL3(args []string) {
 		for _, s := range samples {
 			sids = append(sids, tbl.ID(reflect.TypeOf(s)))
 		}
-		base := map[string]any{"segs": pobs.(map[string]any)["segs"], "tt": tbl.Descs, "samples": sids, "cls": tbl.Cls()}
+		margs := []any{}
+		for _, a := range qargs {
+			margs = append(margs, tbl.Val(reflect.ValueOf(a)))
+		}
+		base := map[string]any{"segs": pobs.(map[string]any)["segs"], "tt": tbl.Descs, "samples": sids, "cls": tbl.Cls(), "args": margs}
 		base["k"] = "l3prep"
 		prep, err := cl.Call(base)
 		if err != nil {
@@ -288,7 +303,10 @@ func runL3(args []string) {
 			}
 		}
 		note := "dests-ok"
-		if cr.Chance(1, 5) && len(dests) > 0 {
+		if withFilter && cr.Chance(1, 3) {
+			dests = append(dests, &InFilter{Z: 5 * cr.Intn(2)})
+			note = "dest-input-only-type"
+		} else if cr.Chance(1, 5) && len(dests) > 0 {
 			j := cr.Intn(len(dests))
 			t := reflect.TypeOf(dests[j])
 			switch cr.Intn(9) {
@@ -443,7 +461,7 @@ func runL3(args []string) {
 			sqldb, st := fakedrv.Open()
 			defer sqldb.Close()
 			st.SetScript(fakedrv.Script{Columns: colNames, Rows: [][]driver.Value{rowVals}})
-			gerr = sqlair.NewDB(sqldb).Query(context.Background(), stmt).Get(dests...)
+			gerr = sqlair.NewDB(sqldb).Query(context.Background(), stmt, qargs...).Get(dests...)
 		}()
 		caseJSON := map[string]any{"q": hx(q), "text": printable(q), "cols": colNames, "row": rowJ, "dests": fmt.Sprintf("%#v", dests), "note": note}
 		kb, _ := json.Marshal([]any{q, colNames, rowJ, before})
@@ -463,7 +481,7 @@ func runL3(args []string) {
 		} else {
 			dist["outcome:ok"]++
 		}
-		req := map[string]any{"k": "l3", "segs": base["segs"], "tt": tbl.Descs, "samples": sids, "cls": tbl.Cls(),
+		req := map[string]any{"k": "l3", "segs": base["segs"], "tt": tbl.Descs, "samples": sids, "cls": tbl.Cls(), "args": margs,
 			"cols": colsJ, "row": rowJ, "dests": before, "conv": conv, "zero": zero, "obs": obs}
 		resp, err := cl.Call(req)
 		if err != nil {
@@ -496,6 +514,11 @@ func runL3(args []string) {
 
 // gOutput draws one output expression (over real zoo types).
 func gOutput(g *qgen.G) string { return g.OutputExpr() }
+
+// InFilter is used by statements as an input only.
+type InFilter struct {
+	Z int `db:"z"`
+}
 
 // registerRev fills the id -> reflect.Type map for everything reachable from t.
 func registerRev(tbl *desc.Table, t reflect.Type, rev map[int]reflect.Type) {
